@@ -126,8 +126,8 @@ def add_atomic_ops(g):
                 g.add(nm, "i" + vt, vt, [("local.get", 0), ("local.get", 1), (op, off)], "rmw", "%s,%d" % (op, off))
 
 
-def gen_mem(outdir, minpages=1, maxpages=8, nomax=False):
-    g = Gen("mem")
+def gen_mem(outdir, minpages=1, maxpages=8, nomax=False, name="mem"):
+    g = Gen(name)
     m = g.m
     if nomax:
         m.memory(minpages, None, export="memory")
@@ -156,6 +156,8 @@ if __name__ == "__main__":
         gen_atom(outdir, *[int(x) for x in sys.argv[3:4]])
     elif kind == "atomimp":
         gen_atom(outdir, 6, imported=True)
+    elif kind == "memnomax":
+        gen_mem(outdir, 1, 8, nomax=True, name="memnomax")     # a memory that declares no maximum
     elif kind == "mem":
         params = sys.argv[3:]
         mn = int(params[0]) if params else 1
